@@ -89,7 +89,7 @@ def script_of(states, kinds=None, variant=0):
         if st['k'] == 'W' and st['out'] == 'blocked':
             st['wval'] = 1
             for later in steps[i + 1:]:
-                if later['s'] == st['s'] and later['step'] == 'grant':
+                if later['s'] == st['s'] and later['step'] == 'grant' and later['out'] != 'blocked':
                     st['wval'] = later.get('wval', 1)
                     break
     return {'kinds': list(kinds), 'variant': variant, 'modes': [str(m) for m in init['mode']], 'no': no,
